@@ -177,6 +177,12 @@ class SymStream:
             for r in value.records:
                 self._file.put(r)
             return
+        if hasattr(value, 'vals') and hasattr(value, 'dtype'):
+            # integers dumped with ndarray.tobytes(): host byte order, not the file's - never decodes as a typed field of the file
+            width = np.dtype(value.dtype).itemsize
+            for v in value.vals:
+                self._file.put(Rec(f'host-order-{value.dtype}', width, v))
+            return
         raise C.Unsupported('write_raw of real bytes')
 
     # -- read
